@@ -1156,6 +1156,7 @@ fn main() {
                 // every trace derives its own generator from (seed, index): the run is a function of the seed
                 let mut rng = Rng::new(seed.wrapping_mul(0x9E37_79B9).wrapping_add(j as u64 * 7919 + 13));
                 let r = if j < NSCENARIOS { scenario(j, &mut rng) } else if j < NSCENARIOS + NLIMITS { limit_scenario(j - NSCENARIOS, &mut rng) } else { random_trace(j - NSCENARIOS - NLIMITS, &mut rng, thorough) };
+                vh::tick(); // progress mark for the hang watchdog (vh::start_watchdog)
                 res.push((j, r)); j += nthreads;
             }
             res
